@@ -1,1 +1,60 @@
-From CG Require Import Spec.Sets.
+(* Props/C18.v — C18: filters select exactly the events that satisfy the predicate.
+   Statements only (Proofs/Filter.v).  The predicate semantics [feval] is tied to
+   properties.py by the correspondence of the check (filter trees x events). *)
+From CG Require Import Proofs.Defs Proofs.Filter.
+
+Theorem C18_filtered_exact : forall env s f a b rv x,
+  In x (fetch env (Filt s f) a b rv) <-> In x (fetch env s a b rv) /\ feval env f x = true.
+Proof. exact filtered_in. Qed.
+Print Assumptions C18_filtered_exact.
+
+Theorem C18_filtered_in_order : forall env s f a b rv,
+  fetch env (Filt s f) a b rv = filter (feval env f) (fetch env s a b rv).
+Proof. exact filtered_exact. Qed.
+Print Assumptions C18_filtered_in_order.
+
+Theorem C18_and_is_conjunction : forall env f g i,
+  feval env (FAnd [f; g]) i = feval env f i && feval env g i.
+Proof. exact feval_and2. Qed.
+Print Assumptions C18_and_is_conjunction.
+
+Theorem C18_or_is_disjunction : forall env f g i,
+  feval env (FOr [f; g]) i = feval env f i || feval env g i.
+Proof. exact feval_or2. Qed.
+Print Assumptions C18_or_is_disjunction.
+
+Theorem C18_duration_threshold : forall env scale c k s e p,
+  eval_cmp env (PDur scale) c (VInt k) (mkI (Some s) (Some e) p) = true <-> dur_q_cmp c (e - s) scale k.
+Proof. exact duration_threshold. Qed.
+Print Assumptions C18_duration_threshold.
+
+Theorem C18_unbounded_is_infinitely_long : forall env scale c k i,
+  st i = None \/ en i = None ->
+  eval_cmp env (PDur scale) c (VInt k) i = match c with Ge | Gt | Ne => true | _ => false end.
+Proof. exact duration_unbounded. Qed.
+Print Assumptions C18_unbounded_is_infinitely_long.
+
+Theorem C18_has_any : forall env name vs i,
+  feval env (FHasAny name vs) i = true <->
+  exists v, In v vs /\ memN v (set_of (field_of env i name)) = true.
+Proof. exact has_any_spec. Qed.
+Print Assumptions C18_has_any.
+
+Theorem C18_has_all : forall env name vs i,
+  feval env (FHasAll name vs) i = true <->
+  forall v, In v vs -> memN v (set_of (field_of env i name)) = true.
+Proof. exact has_all_spec. Qed.
+Print Assumptions C18_has_all.
+
+Theorem C18_empty_collections : forall env p name i,
+  feval env (FOneOf p []) i = false /\ feval env (FHasAny name []) i = false /\
+  feval env (FHasAll name []) i = true.
+Proof. intros. repeat split. Qed.
+Print Assumptions C18_empty_collections.
+
+Example C18_nonvacuous :
+  let env := [(7%N, [(0%N, VInt 5); (2%N, VSet [1%N; 2%N])])] in
+  let ev := mkI (Some 0) (Some 7200) (Rich 7) in
+  feval env (FAnd [FCmp (PDur 3600) Ge (VInt 2); FOr [FHasAll 2%N [1%N; 2%N]; FCmp (PField 0%N) Eq (VInt 9)]]) ev = true /\
+  feval env (FCmp (PDur 3600) Gt (VInt 2)) ev = false.
+Proof. vm_compute. split; reflexivity. Qed.
